@@ -28,7 +28,7 @@ import (
 // response is compared with a sequential baseline on a private instance.
 
 type ConcOp struct {
-	Kind  string `json:"kind"` // do | validate | cacheGet | execPlan | reset
+	Kind  string `json:"kind"` // do | validate | cacheGet | execPlan | reset | burst
 	Query int    `json:"query"`
 	Vars  int    `json:"vars,omitempty"` // index into c07Valuations
 }
@@ -90,7 +90,7 @@ func c07Model() *model.Schema {
 
 func c07Instance() (*build.Built, *ref.World, error) {
 	m := c07Model()
-	w := &ref.World{S: m, Salt: 21, MaxList: 3}
+	w := &ref.World{S: m, Salt: 21, MaxList: 6}
 	b, err := build.New(m, w, build.Options{})
 	return b, w, err
 }
@@ -125,6 +125,19 @@ func c07Run(b *build.Built, w *ref.World, pc *graphql.PlanCache, plan *graphql.P
 		return respJSON(graphql.ExecutePlan(pr.Plan, graphql.ExecuteParams{Schema: b.Schema, Args: args, Context: ctx}))
 	case "execPlan":
 		return respJSON(graphql.ExecutePlan(plan, graphql.ExecuteParams{Schema: b.Schema, Args: vars, Context: ctx}))
+	case "burst":
+		// the shared plan many times in a row (lists of mixed runtime types through the same
+		// abstract field plans, from several goroutines): every answer must be the same
+		first := ""
+		for i := 0; i < 40; i++ {
+			r := respJSON(graphql.ExecutePlan(plan, graphql.ExecuteParams{Schema: b.Schema, Args: vars, Context: build.WithSession(context.Background(), &build.Session{W: w})}))
+			if i == 0 {
+				first = r
+			} else if r != first {
+				return "execution " + fmt.Sprint(i+1) + " of a burst differs: " + r + " (first: " + first + ")"
+			}
+		}
+		return first
 	case "reset":
 		pc.Reset()
 		return "reset"
@@ -219,7 +232,7 @@ func TestC07(t *testing.T) {
 		}
 		return
 	}
-	kinds := []string{"do", "do", "do", "validate", "cacheGet", "cacheGet", "execPlan", "execPlan", "reset"}
+	kinds := []string{"do", "do", "do", "validate", "cacheGet", "cacheGet", "execPlan", "execPlan", "reset", "burst"}
 	cur := filepath.Join(os.Getenv("VERIF_REPLAY_DIR"), fmt.Sprintf("C07-current-s%d.json", envInt("VERIF_SHARD", 0)))
 	rapid.Check(t, func(rt *rapid.T) {
 		c := &ConcCase{Normalize: gen.Chance(rt, 50, "normalize")}
